@@ -1,5 +1,5 @@
 """Table from which tools/gen_manifest.py writes MANIFEST.json."""
-FIX_COMMITS = ["77a8511 (C20)", "5ffb491 (C06)", "c8070ac (C06)"]
+FIX_COMMITS = ["77a8511 (C20)", "5ffb491 (C06)", "c8070ac (C06)", "17c5c88 (C10)"]
 
 CHECKS = {
     "C20": {
@@ -22,6 +22,18 @@ CHECKS = {
         "note": "Not decided: mutation of objects held by an attribute from outside, numerical equality of cached and fresh values. "
                 "9 class-level knobs are recorded as known findings (demonstrated by known_demos/c06_knobs.py). Trusted: Python "
                 "attribute protocol (obj.x = v / obj.x += v call __setattr__).",
+    },
+    "C10": {
+        "technique": "static analysis: static signature binding of kernel call sites against every component family member + structured path counting",
+        "text": "Every call and attribute use EventKernel makes on a pluggable component is bound on the syntax trees against every "
+                "shipped member of the family (4 tracers, 4 path classes, 4 Askaryan models, antennas/systems incl. custom packages in "
+                "thorough, 5 generators, 5 ice models, the writer) and the tracers' own path-constructor calls are bound too: the whole "
+                "component cross-product of the quantifier (R10a, sufficient for 'no interface mismatch'). Path counting proves one "
+                "receive and one polarization entry per ray solution on every normal path and one ray_paths.extend over the same "
+                "solutions (R10b); pattern rules fix the off-cone substitution, weight cuts, trigger and writer hand-over (R10c-e).",
+        "note": "Not decided: physics of nu_pol/psi, numerical alignment, user-supplied components. Frozen exception: abstract base "
+                "AntennaSystem has no `position` (every concrete system assigns it). Trusted: Python call-binding rules as "
+                "re-implemented in pvx/core/sigbind.py.",
     },
 }
 
